@@ -1199,22 +1199,30 @@ impl<'de, R: Read<'de>> Parser<R> {
         self.eat_char();
 
         let mut at_least_one_digit = false;
-        while let c @ b'0'..=b'9' = self.peek_or_null()? {
+        // Zeros of the fraction that have not been folded into the significand yet: trailing
+        // zeros carry no information and must not use up significand precision.
+        let mut pending_zeros = 0u32;
+        'digits: while let c @ b'0'..=b'9' = self.peek_or_null()? {
             self.eat_char();
-            let digit = u64::from(c - b'0');
             at_least_one_digit = true;
-
-            if overflow!(significand * 10 + digit, u64::MAX) {
-                // The next multiply/add would overflow, so just ignore all
-                // further digits.
-                while let b'0'..=b'9' = self.peek_or_null()? {
-                    self.eat_char();
-                }
-                break;
+            if c == b'0' {
+                pending_zeros = pending_zeros.saturating_add(1);
+                continue;
             }
-
-            significand = significand * 10 + digit;
-            exponent -= 1;
+            let digit = u64::from(c - b'0');
+            for d in std::iter::repeat(0).take(pending_zeros as usize).chain(Some(digit)) {
+                if overflow!(significand * 10 + d, u64::MAX) {
+                    // The next multiply/add would overflow, so just ignore all
+                    // further digits.
+                    while let b'0'..=b'9' = self.peek_or_null()? {
+                        self.eat_char();
+                    }
+                    break 'digits;
+                }
+                significand = significand * 10 + d;
+                exponent -= 1;
+            }
+            pending_zeros = 0;
         }
 
         if !at_least_one_digit {
